@@ -58,6 +58,8 @@ def alphabet_for(thorough):
             A.append(dict(op='put_att', v=v, name='a', xtype=D.NC_SHORT, vals=[7]))          # smaller, other type
             A.append(dict(op='put_att', v=v, name='a', xtype=D.NC_CHAR, vals=b'xy'))
             A.append(dict(op='put_att', v=v, name='ab', xtype=D.NC_DOUBLE, vals=[]))          # zero length
+            A.append(dict(op='put_att', v=v, name='a', xtype=D.NC_DOUBLE, vals=[1.5, 2.5]))   # fewer elements than [1,2,3] but more bytes
+            A.append(dict(op='put_att', v=v, name='a', xtype=D.NC_BYTE, vals=[1, 2, 3, 4, 5, 6, 7, 8, 9]))   # more elements than [1,2,3] but not more bytes (padded)
             if thorough: A.append(dict(op='put_att', v=v, name='a', xtype=D.NC_INT, vals=[1, 2, 3, 4, 5]))   # larger
             A.append(dict(op='put_att', v=v, name=E_DECOMPOSED, xtype=D.NC_INT, vals=[9]))
             A.append(dict(op='put_att', v=v, name='a', xtype=D.NC_BYTE, vals=[1, -127], emit_vals=[1, 300], mem='int', erange=True))   # NC_ERANGE: completed, fill stored
@@ -96,6 +98,52 @@ def extra_judge(node, o, r, lines, newm, rc):
     return None
 
 
+def copy_between_files(thorough):
+    """copy_att between two different files whose variable counts differ, every (source variable, target variable, name) combination
+    incl. ids valid in only one of the files, in define and in data mode of the target"""
+    from engine.runner import Case, hexname
+    cases = []
+    for nsrc, ndst in ((1, 3), (3, 1), (0, 2)) + (((2, 4),) if thorough else ()):
+        for dst_mode in ('define', 'data'):
+            for np in ((1, 2) if thorough else (1,)):
+                c = Case('COPY-s%d-d%d-%s-np%d' % (nsrc, ndst, dst_mode, np), np)
+                c.op('*', 'create', f=0, path='src.nc', fmt=1); c.op('*', 'create', f=1, path='dst.nc', fmt=2)
+                for f, n in ((0, nsrc), (1, ndst)):
+                    c.op('*', 'def_dim', f=f, name=hexname('x'), len=2)
+                    for v in range(n): c.op('*', 'def_var', f=f, name=hexname('v%d' % v), xtype='int', dims=[0])
+                # source attributes: global title (text), per variable units (text) and scale (two ints)
+                c.op('*', 'put_att', f=0, v=-1, name=hexname('title'), xtype='char', n=3, vals=[97, 98, 99])
+                for v in range(nsrc):
+                    c.op('*', 'put_att', f=0, v=v, name=hexname('units'), xtype='char', n=2, vals=[109 + v, 47])
+                    c.op('*', 'put_att', f=0, v=v, name=hexname('scale'), xtype='int', n=2, vals=[10 + v, 20 + v])
+                # the target holds larger attributes of the same names, so that a copy in data mode is legal
+                for v in range(-1, ndst):
+                    for nm in ('title', 'units', 'scale'): c.op('*', 'put_att', f=1, v=v, name=hexname(nm), xtype='double', n=2, vals=[0.5, 1.5])
+                c.op('*', 'enddef', f=0)
+                if dst_mode == 'data': c.op('*', 'enddef', f=1)
+                src_atts = {-1: {'title': ('char', [97, 98, 99])}}
+                for v in range(nsrc): src_atts[v] = {'units': ('char', [109 + v, 47]), 'scale': ('int', [10 + v, 20 + v])}
+                ctx = []
+                for vin in range(-1, nsrc + 2):
+                    for vout in range(-1, ndst + 2):
+                        for nm in ('title', 'units', 'scale', 'nosuch'):
+                            ok_in = vin < nsrc; ok_out = vout < ndst
+                            has = ok_in and nm in src_atts.get(vin, {})
+                            exp = set()
+                            if not ok_in: exp.add(D.NC_ENOTVAR)
+                            if not ok_out: exp.add(D.NC_ENOTVAR)
+                            if ok_in and not has: exp.add(D.NC_ENOTATT)
+                            if not exp: exp = {0}
+                            lc = c.op('*', 'copy_att', f=0, v=vin, name=hexname(nm), f2=1, v2=vout)
+                            lg = c.op('*', 'get_att', f=1, v=vout, name=hexname(nm)) if (exp == {0}) else None
+                            ctx.append((vin, vout, nm, exp, lc, lg, src_atts.get(vin, {}).get(nm)))
+                c.op('*', 'close', f=0)
+                if dst_mode == 'define': c.op('*', 'enddef', f=1)
+                c.op('*', 'close', f=1)
+                cases.append((c, ctx))
+    return cases
+
+
 def main(tier=None):
     ck = Check('C07', 'model_checking', tier)
     b = build.build('plain')
@@ -117,9 +165,30 @@ def main(tier=None):
         bfs = HistoryBFS(ck, b['vx'], inits, alphabet_for(False), maxdepth=3, reps=1, emit=emit, extra_judge=extra_judge)
         bfs.run(deadline=time.time() + 600)
     ck.cov['distinct_nontrivial'] = ck.cov.get('states', 0)
+    cc = copy_between_files(thorough)
+    cres = runner.run_cases(b['vx'], [x[0] for x in cc], batch=10)
+    ncopy = 0
+    for (c, ctx), r in zip(cc, cres):
+        ck.cov['evaluations'] += 1
+        if r.status != 'ok':
+            from engine.script import first_frame
+            ck.violation((r.status, 'copy_att', first_frame(r.detail)), c.text(), c.name + ': ' + r.detail[:500]); continue
+        bad = None
+        for (vin, vout, nm, exp, lc, lg, src) in ctx:
+            ncopy += 1
+            for k in r.ranks:
+                rc = r.rc(k, lc)
+                ck.outcomes.add(('copy_att', rc))
+                if rc not in exp: bad = 'copy_att(src var %d, "%s" -> dst var %d) returned %d on rank %d, expected %s' % (vin, nm, vout, rc, k, sorted(exp)); break
+                if lg is not None:
+                    g = r.r(k, lg)
+                    if g.rc != 0 or g.vals() != src[1]: bad = 'after copy_att(src var %d, "%s" -> dst var %d): target attribute reads %s rc=%d, source holds %s' % (vin, nm, vout, g.vals(), g.rc, src[1]); break
+            if bad: break
+        if bad: ck.violation(('copy_att', 'two files', 'variable counts differ'), c.text(), c.name + ': ' + bad)
+    ck.cov['copy_att_between_files'] = ncopy
     ck.cov['rule'] = ('BFS over def_dim/def_var/put_att (overwrite smaller/equal/larger, other type, zero length)/rename_dim/rename_var/rename_att/copy_att/del_att/enddef/redef/close+open with a name alphabet built to collide '
                       '(hash table sizes 1, 2 and default via hints; started from the empty file and from a populated define-mode session with three attributes per object; composed vs decomposed UTF-8 of one NFC string, names whose byte length shrinks or grows under normalisation renamed in data mode; NC_MAX_NAME); after every transition the full inquiry sweep (objects, ids, order, names, types, lengths, values, '
-                      'lookup by name vs by id) is compared with the sequential model; data-mode changes and reopen are also checked in the decoded file header')
+                      'lookup by name vs by id) is compared with the sequential model; data-mode changes and reopen are also checked in the decoded file header; plus copy_att between two files with different numbers of variables, every (source variable, target variable, name) combination incl. ids valid in one file only')
     ck.assumptions += ['depth bound %d' % bfs.maxdepth]
     runner.cleanup()
     return ck.finish(min_eval=300, min_outcomes=20)
